@@ -286,7 +286,15 @@ var MapKeyTypes = []string{"bool", "byte", "uint16", "int16", "int32", "uint64",
 
 // Shapes enumerates the corpus for a tier. sel filters: "all" or a comma list
 // of shape-name substrings.
-func Shapes(tier string) []*Pkg {
+func Shapes(tier string) []*Pkg { return ShapesProfile(tier, "full") }
+
+var liteLeaves = map[string]bool{"bool": true, "int32": true, "string": true, "guid": true, "date": true, "EUint16": true, "Fixed": true, "StrS": true, "Empty": true, "Msg": true, "Uni": true, "RecM": true}
+
+// ShapesProfile enumerates the corpus; profile "lite" (used in the quick tier
+// by the checks whose cost grows with the encoding length: cut points, fault
+// points, corruption windows) keeps every leaf as a plain field and the
+// containers over a leaf subset.
+func ShapesProfile(tier, profile string) []*Pkg {
 	var out []*Pkg
 	add := func(lf leaf, ct ctor, cx string, ft *Type) {
 		defs := append([]*Def{}, lf.defs...)
@@ -316,6 +324,14 @@ func Shapes(tier string) []*Pkg {
 						continue
 					}
 				}
+				if profile == "lite" && tier == "quick" {
+					if ci > 0 && !liteLeaves[lf.name] {
+						continue
+					}
+					if ci == 3 || (ci >= 4 && !(lf.name == "int32" || lf.name == "string")) || (ci >= 4 && cx != "struct") {
+						continue
+					}
+				}
 				add(lf, ct, cx, ct.build(lf.typ))
 			}
 		}
@@ -324,6 +340,9 @@ func Shapes(tier string) []*Pkg {
 	i32 := leaf{name: "int32", typ: prim("int32")}
 	for _, k := range MapKeyTypes {
 		k := k
+		if profile == "lite" && tier == "quick" && !(k == "bool" || k == "string" || k == "guid" || k == "float64") {
+			continue
+		}
 		add(i32, ctor{name: "map[" + k + ",T]"}, "struct", mp(k, prim("int32")))
 		if tier != "quick" {
 			add(i32, ctor{name: "map[" + k + ",T]"}, "message", mp(k, prim("int32")))
@@ -646,7 +665,7 @@ func Glue(p *Pkg, o Opts, tier Tier, harness string) string {
 	g := &gen{s: p.Schema, o: o, tier: tier}
 	g.p("// Code generated by the verification corpus generator; DO NOT EDIT.\n// shape: %s\n\npackage %s\n\n", p.Shape, p.Name)
 	g.p("import (\n\t\"math\"\n\t\"time\"\n\n\t\"vh/vstub\"\n)\n\nvar _ = math.Float32bits\nvar _ time.Time\n\n")
-	g.p("const (\n\tvMaxArr   = %d\n\tvMaxStr   = %d\n\tvMaxMap   = %d\n\tvMaxDepth = %d\n\tvThorough = %v\n)\n\n", tier.MaxArr, tier.MaxStr, tier.MaxMap, tier.MaxDepth, tier.Name == "thorough")
+	g.p("var (\n\tvMaxArr   = %d\n\tvMaxStr   = %d\n\tvMaxMap   = %d\n\tvMaxDepth = %d\n)\n\nconst vThorough = %v\n\n// vShape tags assertion ids whose known failures depend on the shape of the record.\nconst vShape = %q\n\n", tier.MaxArr, tier.MaxStr, tier.MaxMap, tier.MaxDepth, tier.Name == "thorough", shapeTag(p.Schema))
 	for _, d := range p.Schema.AllDefs() {
 		g.defGlue(d)
 	}
@@ -663,4 +682,26 @@ func Glue(p *Pkg, o Opts, tier Tier, harness string) string {
 		h = strings.Join(keep, "\n")
 	}
 	return src + h
+}
+
+func typeHasMap(t *Type) bool {
+	switch t.Kind {
+	case "map":
+		return true
+	case "array":
+		return typeHasMap(t.Elem)
+	}
+	return false
+}
+
+// shapeTag is "map" if any field of any definition contains a map type.
+func shapeTag(s *Schema) string {
+	for _, d := range s.AllDefs() {
+		for _, f := range d.Fields {
+			if typeHasMap(f.Type) {
+				return "map"
+			}
+		}
+	}
+	return "nomap"
 }
